@@ -7,6 +7,25 @@ use crate::grammar::*;
 use std::collections::{BTreeSet, HashSet};
 
 pub(super) fn detect_cycles(ast: &Ast, diagnostics: &mut Diagnostics) {
+    // Aliases that contain themselves through an anonymous type (ex: 'typealias A = Sequence<A>'): the type patcher binds
+    // the inner 'A' to the sequence itself, so every recursive descent through such a type would never end.
+    for node in ast.as_slice() {
+        if let Node::TypeAlias(alias_ptr) = node {
+            let type_alias = alias_ptr.borrow();
+            if revisits_anonymous_type(&type_alias.underlying, &mut Vec::new()) {
+                Diagnostic::new(Error::SelfReferentialTypeAliasNeedsConcreteType {
+                    identifier: type_alias.module_scoped_identifier(),
+                })
+                .set_span(type_alias.span())
+                .add_note("failed to resolve type due to a cycle in its definition", None)
+                .push_into(diagnostics);
+            }
+        }
+    }
+    if diagnostics.has_errors() {
+        return;
+    }
+
     // Interfaces that inherit from themselves: `all_base_interfaces` would never return on them.
     for node in ast.as_slice() {
         if let Node::Interface(interface_ptr) = node {
@@ -34,6 +53,24 @@ pub(super) fn detect_cycles(ast: &Ast, diagnostics: &mut Diagnostics) {
         cycle_detector.type_being_checked = Some((candidate.module_scoped_identifier(), candidate));
         candidate.check_for_cycles(&mut cycle_detector)
     }
+}
+
+/// Returns true if, below `type_ref`, an anonymous type (sequence, dictionary, or result) contains itself.
+fn revisits_anonymous_type(type_ref: &TypeRef, path: &mut Vec<*const ()>) -> bool {
+    let (node, children): (*const (), Vec<&TypeRef>) = match type_ref.concrete_type() {
+        Types::Sequence(s) => (s as *const Sequence as *const (), vec![&s.element_type]),
+        Types::Dictionary(d) => (d as *const Dictionary as *const (), vec![&d.key_type, &d.value_type]),
+        Types::ResultType(r) => (r as *const ResultType as *const (), vec![&r.success_type, &r.failure_type]),
+        // Structs and enums are checked by the `CycleDetector`; primitives and custom types are leaves.
+        _ => return false,
+    };
+    if path.contains(&node) {
+        return true;
+    }
+    path.push(node);
+    let found = children.into_iter().any(|child| revisits_anonymous_type(child, path));
+    path.pop();
+    found
 }
 
 /// Reports an error if the provided interface inherits from itself, directly or through other interfaces.
